@@ -225,6 +225,9 @@ def concretise_c06(st, seed, iid):
         inst.update(nsamples="2", maxfun_default=min(200 * (n + 1), 2000))
     if st.get("special") == "lh_other_type":
         inst["lhtype"] = "int" if st["reg"] == "l2" else "float32"
+    if st.get("special") == "soft_restarts_adding_points":
+        inst["user_params"] = {"restarts.use_restarts": True, "restarts.increase_npt": True, "restarts.max_npt": n + 1 + int(rng.integers(1, 3)), "restarts.max_unsuccessful_restarts": 2}
+        inst.update(restarts="soft", maxunsucc=2)      # (with restarts on a run legitimately goes on to the budget: the value clause applies, not the flag clause)
     if st.get("special") == "hard_restarts":
         inst["user_params"] = {"restarts.use_restarts": True, "restarts.use_soft_restarts": False, "restarts.max_unsuccessful_restarts": 2,
                                "restarts.hard.use_old_rk": bool(rng.random() < 0.5)}
